@@ -529,6 +529,24 @@ func (c *ctx) requiredFields(us []*universe.UStruct, perType int) {
 	g := c.cfg()
 	g.maxLen = 3
 	for _, u := range us {
+		// systematically: every single top-level field missing in turn (the first 16 and 4 random ones
+		// of wider types), everything else present
+		gf := c.cfg()
+		gf.maxLen, gf.minLen, gf.bigStr = 2, 1, false
+		if tv := c.mkMessage(c.writerOf(u), gf); tv != nil && len(tv.Fields) > 0 {
+			var ks []int
+			for k := 0; k < len(tv.Fields) && k < 16; k++ {
+				ks = append(ks, k)
+			}
+			for k := 0; k < 4 && len(tv.Fields) > 16; k++ {
+				ks = append(ks, 16+c.r.Intn(len(tv.Fields)-16))
+			}
+			for _, k := range ks {
+				one := &TV{T: tSTRUCT}
+				one.Fields = append(append([]TField{}, tv.Fields[:k]...), tv.Fields[k+1:]...)
+				c.h.opDec(u, one.ser(nil), fresh(u), false)
+			}
+		}
 		for i := 0; i < perType; i++ {
 			tv := c.mkMessage(c.writerOf(u), g)
 			if tv == nil {
@@ -686,7 +704,18 @@ func (c *ctx) poolResidue(us []*universe.UStruct, rounds int) {
 			if c.r.Intn(2) == 0 {
 				c.decorate(tv)
 			}
-			c.h.opDec(a, tv.ser(nil), c.dest(a, g), false)
+			m := tv.ser(nil)
+			switch c.r.Intn(3) {
+			case 0:
+				// … or a decode of a that FAILS after most of its fields have been read (the last byte
+				// — the STOP — cut off, or the message cut in the middle): whatever the failed call had
+				// marked as present must not survive in pooled scratch
+				c.h.opDec(a, m[:len(m)-1], c.dest(a, g), false)
+			case 1:
+				c.h.opDec(a, m[:len(m)/2+c.r.Intn(len(m)/2+1)], c.dest(a, g), false)
+			default:
+				c.h.opDec(a, m, c.dest(a, g), false)
+			}
 		}
 		// message for b built from ANY type's message: b's required fields are mostly absent
 		src := us[c.r.Intn(len(us))]
